@@ -79,6 +79,10 @@ VK_MAIN()
                 int nres = 0;
                 for (int c = 0; c < VK_ALN; c++) {
                         unsigned char ch = vin.b[vb++];
+#ifdef VK_WIN_LO
+                        /* wide MSF instances: only columns VK_WIN_LO..VK_WIN_HI-1 are symbolic, the rest is a fixed backdrop */
+                        if (c < VK_WIN_LO || c >= VK_WIN_HI) ch = ((c * 7 + s * 3) % 5 == 0) ? '-' : (unsigned char)("ACDEFGHIKLmnpqrstvwy"[(c + 3 * s) % 20]);
+#endif
                         VK_ASSUME(vk_isalpha(ch) || ch == '-');
                         m->sequences[s]->seq[c] = (char)ch;
                         if (ch != '-') nres++;
@@ -90,7 +94,7 @@ VK_MAIN()
 #ifdef VK_SYM_NAMES
                         unsigned char ch = vin.b[vb++]; VK_ASSUME(name_char_ok(ch));
 #else
-                        unsigned char ch = (unsigned char)("Qa_7.|x-Z"[3 * s + k]);   /* name characters concrete, lengths enumerated */
+                        unsigned char ch = (unsigned char)("_aQ.7||-Z"[3 * s + k]);   /* name characters concrete, lengths enumerated */
 #endif
                         m->sequences[s]->name[k] = (char)ch;
                 }
